@@ -60,7 +60,8 @@ def gen_case(rng, tier="quick"):
     long_run = rng.random() < 0.06
     if method == "tempo":
         if long_run:
-            case["n"] = n = rng.randrange(33, 140)
+            case["n"] = n = rng.randrange(33, 140 if tier == "quick"
+                                          else 300)
         m["dkmax"] = _pick(rng, [None, 1, 2, 3], [2, 2, 3, 2])
         if long_run and m["dkmax"] is None:
             m["dkmax"] = 3
